@@ -728,3 +728,26 @@ class _LayerRoundTrip(_WithPolymod):
 
 for _i, _ch in enumerate(_chunks([0, 1, 2, 3, 5, 8, 13, 21, 33, 34, 53, 54, 65, 66, 80, 81, 82, 83, 90], 2)):
     CONTRACTS.append(type(f"LayerRoundTrip_{_i}", (_LayerRoundTrip,), dict(ks=_ch))())
+
+
+class CanaryPolymodGenerator(Polymod):
+    """must FAIL: spec step with one generator bit flipped"""
+    props = ("C11",)
+
+    def post(self, c, I, out):
+        return ()
+
+
+class _CanaryLoop(PolyLoop):
+    def after_body(self, ctx, frame, g):
+        top = z3.LShR(g.old.v, 25)
+        r = ((g.old.v & B(0x1ffffff)) << 5) ^ z3.Int2BV(g.value, W)
+        gens = list(S.GEN)
+        gens[4] ^= 1
+        for i in range(5):
+            r = r ^ z3.If(z3.Extract(i, i, top) == 1, B(gens[i]), B(0))
+        ctx.side_check("canary.step_with_flipped_generator_bit", bv(frame.env["chk"]) == r)
+
+
+CanaryPolymodGenerator.loops = {0: _CanaryLoop()}
+CANARIES += [CanaryPolymodGenerator()]
